@@ -83,8 +83,10 @@ struct UnusedVariableVisitor {
     unused: Vec<UnusedLocalVar>,
 
     /// For let bindings, track the removal position (from `let` to value expr).
-    /// Key is the interned symbol ID.
-    let_removal_positions: FxHashMap<InternedSymbolId, Position>,
+    /// Key is the start offset of the bound symbol: names (and so
+    /// interned IDs) can be shared by several bindings, e.g. a
+    /// parameter and a `let` that shadows it.
+    let_removal_positions: FxHashMap<usize, Position>,
 
     method_this_type_hint: Option<TypeHint>,
 
@@ -257,7 +259,7 @@ impl UnusedVariableVisitor {
             .pop()
             .expect("Tried to pop an empty scope stack.");
 
-        for (id, name, use_state) in scope.into_iter() {
+        for (_, name, use_state) in scope.into_iter() {
             // TODO: Use the actual receiver symbol name rather than
             // hardcoding `self` here.
             if name.to_string().starts_with('_') || name.to_string() == "self" {
@@ -266,7 +268,10 @@ impl UnusedVariableVisitor {
 
             if let UseState::NotUsed(position) = use_state {
                 // Check if this is a let binding with removal info
-                let fix = if let Some(removal_position) = self.let_removal_positions.remove(&id) {
+                let fix = if let Some(removal_position) = self
+                    .let_removal_positions
+                    .remove(&position.start_offset)
+                {
                     UnusedVarFix::RemoveLet { removal_position }
                 } else {
                     UnusedVarFix::Rename
@@ -552,7 +557,7 @@ impl Visitor for UnusedVariableVisitor {
             match dest {
                 LetDestination::Symbol(symbol) => {
                     self.let_removal_positions
-                        .insert(symbol.interned_id, removal_position);
+                        .insert(symbol.position.start_offset, removal_position);
                 }
                 LetDestination::Destructure(_) => {
                     // For destructuring, we can't simply remove the let,
